@@ -17,7 +17,7 @@ class Prop:
     id = "C19"
     level = "exploration"
     engine = "VT"
-    quick_runs = 60000
+    quick_runs = 120000
     thorough_runs = 2500000
     rule = ("one generated cold/hot/sync timeline through group_by and group_by_until (key functions with 1-4 keys, optional element "
             "mapper, duration sources from a cold pool expiring groups at arbitrary later times) with every emitted group subscribed on "
